@@ -73,6 +73,7 @@ def run(chk):
     python_rules(chk, repo, m)
     quadtree_rule(chk)
     fill_children_rules(chk)
+    node_walk_rules(chk)
     triangle_edge_rule(chk)
 
 
@@ -1880,7 +1881,8 @@ def _judge_terms(got, want):
 def one_shot_rules(chk, hm):
     """HTM.match builds a Matcher on the second point set at the tree's own depth and returns what matching the first set against it gives:
     decided on what reaches the compiled Matcher (its constructor and its match method), whichever python entry points of the Matcher
-    class are used on the way"""
+    class are used on the way.  EVERY Matcher the method constructs is judged (a branch that builds the tree on another point set, e.g.
+    with the roles of the two lists exchanged, groups and orders its pairs by the wrong list), and every value the method returns."""
     mod = hm.module
     cfg, RIN = _py_rin(hm)
     ctor = []
@@ -1893,24 +1895,73 @@ def one_shot_rules(chk, hm):
                 ctor.append((n, c, f.attr))
     key1 = "HTM.match::builds-matcher-on-second-set-at-own-depth"
     key2 = "HTM.match::delegates-first-set-radius-maxmatch-file"
-    msg1 = "the compiled Matcher is constructed with (self.get_depth(), ra2, dec2)"
+    msg1 = "every compiled Matcher the method constructs is constructed with (self.get_depth(), ra2, dec2)"
     msg2 = "and the method returns what the compiled Matcher.match gives for (ra1, dec1, radius, maxmatch, <checked file name>): the same code path as the reusable matcher"
-    if len(ctor) != 1:
-        chk.ob("R12.7", key1, None, hm.where(), msg1 + " -- %d constructions of a Matcher found in the method" % len(ctor))
+    if not ctor:
+        chk.ob("R12.7", key1, None, hm.where(), msg1 + " -- no construction of a Matcher found in the method")
         chk.ob("R12.7", key2, None, hm.where(), msg2 + " -- not looked at")
         return
-    n, c, meth = ctor[0]
-    callee = mod.funcs.get("Matcher." + meth)
-    got = None
-    if callee is not None:
-        b = _bind(callee, c, 1, lambda a: _term(hm, a, n.id, None))
-        if b is not None:
-            got = _extension_args(mod, "Matcher", meth, b, "__init__")
     want = ["expr:self.get_depth()", "param:ra2", "param:dec2"]
-    chk.ob("R12.7", key1, _judge_terms(got, want), hm.where(c), msg1 + " (reaching it: %s)" % (got,))
-    # the object, and the value returned
-    a = n.ast
-    obj = a.targets[0].id if isinstance(a, ast.Assign) and a.value is c and len(a.targets) == 1 and isinstance(a.targets[0], ast.Name) else None
+    cverd = []          # (verdict, node, call, terms reaching the extension constructor)
+    for n, c, meth in ctor:
+        callee = mod.funcs.get("Matcher." + meth)
+        got = None
+        if callee is not None:
+            b = _bind(callee, c, 1, lambda a, n=n: _term(hm, a, n.id, None))
+            if b is not None:
+                got = _extension_args(mod, "Matcher", meth, b, "__init__")
+        cverd.append((_judge_terms(got, want), n, c, got))
+    badc = [x for x in cverd if x[0] is False]
+    unkc = [x for x in cverd if x[0] is None]
+    ok1 = False if badc else (None if unkc else True)
+    chk.ob("R12.7", key1, ok1, hm.where(badc[0][2]) if badc else hm.where(cverd[0][2]),
+           msg1 + " (%d construction(s); reaching the extension: %s)%s"
+           % (len(cverd), [x[3] for x in cverd],
+              "" if not badc else " -- `%s` (line %s) builds the tree on something else than the second point set at the object's depth: the circles are then searched "
+              "around the wrong points and the pairs are grouped and ordered by the wrong list" % (norm(badc[0][2]), getattr(badc[0][2], "lineno", "?"))))
+    # the objects, and the values returned
+    objs = {}           # ctor node id -> name the object is bound to
+    for n, c, meth in ctor:
+        a = n.ast
+        if isinstance(a, ast.Assign) and a.value is c and len(a.targets) == 1 and isinstance(a.targets[0], ast.Name):
+            objs[n.id] = a.targets[0].id
+    ctor_calls = [c for _, c, _ in ctor]
+
+    def is_matcher_object(recv, at):
+        if any(recv is c for c in ctor_calls):
+            return True
+        if isinstance(recv, ast.Name):
+            ds = RIN.get(at, {}).get(recv.id, set())
+            return bool(ds) and all(d in objs and objs[d] == recv.id for d in ds)
+        return False
+
+    def match_call_of(v, at):
+        return isinstance(v, ast.Call) and isinstance(v.func, ast.Attribute) and ("Matcher." + v.func.attr) in mod.funcs and is_matcher_object(v.func.value, at)
+
+    def judge_call(v, at):
+        m2 = mod.funcs["Matcher." + v.func.attr]
+        b = _bind(m2, v, 1, lambda x, at=at: _term(hm, x, at, None))
+        g2 = _extension_args(mod, "Matcher", v.func.attr, b, "match") if b is not None else None
+        return _judge_terms(g2, ["param:ra1", "param:dec1", "param:radius", "param:maxmatch", "param:file"]), g2
+
+    def feeding_match_calls(e, at):
+        """the Matcher.match calls (on objects constructed here) whose result the value of e at node `at` is computed from"""
+        out, seen = [], set()
+        todo = [(e, at)]
+        while todo:
+            x, here = todo.pop()
+            for y in ast.walk(x):
+                if match_call_of(y, here) and not any(y is o for o, _ in out):
+                    out.append((y, here))
+            for nmn in [y for y in ast.walk(x) if isinstance(y, ast.Name) and isinstance(y.ctx, ast.Load)]:
+                for d in RIN.get(here, {}).get(nmn.id, ()):
+                    if d != cfg.entry.id and (nmn.id, d) not in seen:
+                        seen.add((nmn.id, d))
+                        val = getattr(cfg.node(d).ast, "value", None)
+                        if isinstance(val, ast.AST):
+                            todo.append((val, d))
+        return out
+
     results = []
     for r in cfg.nodes:
         if r.kind != "return" or r.ast.value is None:
@@ -1922,28 +1973,42 @@ def one_shot_rules(chk, hm):
             da = cfg.node(next(iter(ds))).ast if len(ds) == 1 and next(iter(ds)) != cfg.entry.id else None
             if isinstance(da, ast.Assign) and len(da.targets) == 1 and isinstance(da.targets[0], ast.Name):
                 v, at = da.value, next(iter(ds))
+        elif isinstance(v, ast.Tuple) and v.elts and all(isinstance(x, ast.Name) for x in v.elts):
+            # `a, b, c = <call>; return a, b, c`: the result of the call, unpacked and packed again in the same order
+            dss = [RIN.get(r.id, {}).get(x.id, set()) for x in v.elts]
+            if all(len(d_) == 1 for d_ in dss) and len({next(iter(d_)) for d_ in dss}) == 1 and next(iter(dss[0])) != cfg.entry.id:
+                da = cfg.node(next(iter(dss[0]))).ast
+                if isinstance(da, ast.Assign) and len(da.targets) == 1 and isinstance(da.targets[0], (ast.Tuple, ast.List)) \
+                        and [norm(t_) for t_ in da.targets[0].elts] == [x.id for x in v.elts] and isinstance(da.value, ast.Call):
+                    v, at = da.value, next(iter(dss[0]))
         results.append((r, v, at))
     if not results:
         chk.ob("R12.7", key2, None, hm.where(), msg2 + " -- no return statement")
         return
     verdicts = []
     gots = []
+    notes = []
     for r, v, at in results:
         ok = None
         g2 = None
-        if isinstance(v, ast.Call) and isinstance(v.func, ast.Attribute) and ("Matcher." + v.func.attr) in mod.funcs:
-            recv = v.func.value
-            same = (recv is c) or (isinstance(recv, ast.Name) and obj is not None and recv.id == obj and RIN.get(at, {}).get(obj) == {n.id})
-            if same:
-                m2 = mod.funcs["Matcher." + v.func.attr]
-                b = _bind(m2, v, 1, lambda x, at=at: _term(hm, x, at, None))
-                if b is not None:
-                    g2 = _extension_args(mod, "Matcher", v.func.attr, b, "match")
-                ok = _judge_terms(g2, ["param:ra1", "param:dec1", "param:radius", "param:maxmatch", "param:file"])
+        if match_call_of(v, at):
+            ok, g2 = judge_call(v, at)
+            if ok is False:
+                notes.append("`%s` (line %s) does not hand over (ra1, dec1, radius, maxmatch, file)" % (norm(v)[:80], getattr(v, "lineno", "?")))
+        else:
+            # a value put together from the result of a match call (re-ordered, selected, re-packed): it is not judged as a whole, but the
+            # match call it comes from still has to be the match of the first set: positively something else is a violation
+            for mc, here in feeding_match_calls(v, at):
+                o2, g2 = judge_call(mc, here)
+                if o2 is False:
+                    ok = False
+                    notes.append("the value returned at line %s is put together from `%s` (line %s), which does not match (ra1, dec1, radius, maxmatch, file) "
+                                 "against the tree" % (getattr(r.ast, "lineno", "?"), norm(mc)[:80], getattr(mc, "lineno", "?")))
         verdicts.append(ok)
         gots.append(g2)
     ok = False if False in verdicts else (None if None in verdicts else True)
-    chk.ob("R12.7", key2, ok, hm.where(results[0][0].ast), msg2 + " (reaching it: %s)" % (gots,))
+    bad_r = [r for (r, _, _), vd in zip(results, verdicts) if vd is False]
+    chk.ob("R12.7", key2, ok, hm.where((bad_r or [results[0][0]])[0].ast), msg2 + " (reaching it: %s)%s" % (gots, "" if not notes else " -- " + "; ".join(notes[:2])))
 
 
 def _size_checks(fi):
@@ -2341,6 +2406,295 @@ def fill_children_rules(chk, rule="R12.9"):
 
 
 # ---------------------------------------------------------------------------
+def _single_def_locals(fn):
+    """local name -> initialiser, for locals that are declared with an initialiser and never written afterwards"""
+    assigned = _assigned_names(fn)
+    out = {}
+    for x in walk(cfront.body_of(fn)):
+        if x.get("kind") == "VarDecl" and x.get("name") and init_of(x) is not None and x["name"] not in assigned:
+            out[x["name"]] = init_of(x)
+    return out
+
+
+def _through_locals(e, sdl, depth=0):
+    """the expression with casts and parentheses stripped, a single-definition local replaced by its initialiser"""
+    e = strip(e)
+    while isinstance(e, dict) and e.get("kind") in ("CStyleCastExpr", "CXXStaticCastExpr", "CXXFunctionalCastExpr", "ParenExpr", "ImplicitCastExpr") and e.get("inner"):
+        e = strip(e["inner"][-1])
+    if isinstance(e, dict) and e.get("kind") == "DeclRefExpr" and e.get("referencedDecl", {}).get("kind") == "VarDecl" and e["referencedDecl"].get("name") in sdl and depth < 4:
+        return _through_locals(sdl[e["referencedDecl"]["name"]], sdl, depth + 1)
+    return e
+
+
+def _value_params(e, params):
+    """parameters whose VALUE the integer expression is computed from (through arithmetic, shifts, casts); a parameter that only selects
+    an element (array subscript, member of a record found through it) is not one of them"""
+    out = set()
+    todo = [e]
+    while todo:
+        x = todo.pop()
+        if not isinstance(x, dict):
+            continue
+        k = x.get("kind")
+        if k in ("ArraySubscriptExpr", "MemberExpr", "CallExpr", "CXXMemberCallExpr", "CXXOperatorCallExpr"):
+            continue
+        if k == "DeclRefExpr":
+            rd = x.get("referencedDecl", {})
+            if rd.get("kind") == "ParmVarDecl" and rd.get("name") in params:
+                out.add(rd["name"])
+            continue
+        todo.extend(x.get("inner", []) or [])
+    return out
+
+
+def id_sink_positions(fs):
+    """{method short name: argument positions whose value ends up, as a triangle id, in one of the result lists}: the argument of
+    ValVec<uint64>::append and of SpatialIndex::leafNumberById, and - to a fixed point - every parameter of a method of the file whose
+    value is handed (as it is, or shifted / offset for the children) to such a position"""
+    sinks = {}
+
+    def positions(x):
+        cn = callee_name(x)
+        if x.get("kind") == "CXXMemberCallExpr" and cn == "append" and x["inner"][0].get("inner"):
+            rt = (strip(x["inner"][0]["inner"][0]).get("type") or {}).get("qualType", "")
+            return {0} if "ValVec<uint64>" in rt.replace(" ", "").replace("unsignedlong", "uint64") or "ValVec<uint64>" in rt else set()
+        if cn == "leafNumberById":
+            return {0}
+        return sinks.get(cn, set())
+    changed = True
+    while changed:
+        changed = False
+        for name, fn in sorted(fs.items()):
+            if "::" not in name or not cfront.has_body(fn):
+                continue
+            short = name.split("::")[-1]
+            ps = cfront.params_of(fn)
+            nodepos = _node_index_params(fn)     # a parameter that is a position in the node array is no id, wherever it is handed to
+            for x in walk(cfront.body_of(fn)):
+                if x.get("kind") not in ("CallExpr", "CXXMemberCallExpr"):
+                    continue
+                args = cfront.call_args(x)
+                for pos in positions(x):
+                    if pos < len(args):
+                        for p_ in _value_params(args[pos], [q for q in ps if q not in nodepos]):
+                            i = ps.index(p_)
+                            if i not in sinks.setdefault(short, set()):
+                                sinks[short].add(i)
+                                changed = True
+    return sinks, positions
+
+
+def _node_index_params(fn):
+    """parameters of the method that are used as a position in the node array (`index_->nodes_.vector_[p]`)"""
+    ps = cfront.params_of(fn)
+    out = []
+    for x in walk(cfront.body_of(fn)):
+        if x.get("kind") == "ArraySubscriptExpr" and render(strip(x["inner"][0])).replace(" ", "").endswith("nodes_.vector_"):
+            ix = strip(x["inner"][1])
+            if ix.get("kind") == "DeclRefExpr" and ix.get("referencedDecl", {}).get("kind") == "ParmVarDecl" and ix["referencedDecl"].get("name") in ps \
+                    and ix["referencedDecl"]["name"] not in out:
+                out.append(ix["referencedDecl"]["name"])
+    return out
+
+
+def node_walk_rules(chk, rule="R12.9"):
+    """R12.9 (continued): the methods that walk the STORED part of the tree are given a position in the node array (they read
+    `index_->nodes_.vector_[p]`), the methods that build the deeper levels on the fly are given an HTM id.  Two necessary conditions
+    wherever a stored node is handled (fillChildren is covered by fill_children_rules; this covers every other such method, today
+    triangleTest):
+    (a) whatever is handed from there to a result list - directly, or as the id argument of a method that passes it on (testPartial,
+        setfull, testSubTriangle: found by following the argument to the lists) - is the node's HTM id `N(p).id_`, not the position p nor
+        a child position `childID_[k]`;
+    (b) a node that has stored children is searched through ALL four of them: no child call is conditional on, and no exit from the
+        loop over the children is taken because of, the result of a sibling - unless that result is only ever returned where the query
+        region was shown not to cross an edge of the triangle (the documented sWALLOWED case), which is then not judged here."""
+    decls = cfront.load_tu("spatialconvex")
+    fs = cfront.functions(decls)
+    where = "esutil/htm/htm_src/SpatialConvex.cpp"
+    sinks, positions = id_sink_positions(fs)
+    testers = None
+    done = set()
+    for name, fn in sorted(fs.items()):
+        if "::" not in name or id(fn) in done or not cfront.has_body(fn):
+            continue
+        done.add(id(fn))
+        short = name.split("::")[-1]
+        nps = _node_index_params(fn)
+        if len(nps) != 1:
+            continue
+        par = nps[0]
+        chk.analysed_unit("SpatialConvex.cpp:" + name)
+        fw = "%s:%s" % (where, fn.get("line", "?"))
+        sdl = _single_def_locals(fn)
+        idexpr = ("index_->nodes_.vector_[%s].id_" % par).replace(" ", "")
+        g = cfront.CCFG(fn)
+        v = g.view()
+        # (a) ------------------------------------------------------------
+        if short != "fillChildren":
+            good, bad, unk = [], [], []
+            for n in g.nodes:
+                if not isinstance(n.c, dict):
+                    continue
+                for x in walk(n.c):
+                    if x.get("kind") not in ("CallExpr", "CXXMemberCallExpr"):
+                        continue
+                    args = cfront.call_args(x)
+                    for pos in sorted(positions(x)):
+                        if pos >= len(args):
+                            continue
+                        e = _through_locals(args[pos], sdl)
+                        t = render(e).replace(" ", "")
+                        ln = x.get("line") or (n.c.get("line") if isinstance(n.c, dict) else None) or fn.get("line", "?")
+                        if t == idexpr:
+                            good.append((callee_name(x), t))
+                        elif (e.get("kind") == "DeclRefExpr" and e.get("referencedDecl", {}).get("name") == par) or \
+                                (t.startswith(("index_->nodes_.vector_[%s]." % par).replace(" ", "")) and not t.endswith(".id_")):
+                            bad.append((callee_name(x), render(e), ln))
+                        else:
+                            unk.append((callee_name(x), render(e), ln))
+            if good or bad or unk:
+                ok = False if bad else (None if unk else True)
+                chk.ob(rule, "%s::hands-over-triangle-ids" % short, ok, ("%s:%s" % (where, bad[0][2])) if bad else fw,
+                       "`%s` is a position in the node array (the method reads index_->nodes_.vector_[%s]): every id it hands to the result lists, directly or as the id "
+                       "argument of a method that passes it on (%s), is the node's HTM id `N(%s).id_`%s%s"
+                       % (par, par, ", ".join("%s#%s" % (k_, sorted(v_)) for k_, v_ in sorted(sinks.items())), par,
+                          "" if not bad else " -- %s: a position in the node array (9.. for the stored nodes) is reported where a triangle id is expected: ids outside the "
+                          "valid range of the depth, wrong triangles" % "; ".join("`%s(%s)` at line %s" % b_ for b_ in bad[:3]),
+                          "" if not unk else " -- not recognised: %s" % "; ".join("`%s(%s)` at line %s" % u_ for u_ in unk[:3])))
+        # (b) ------------------------------------------------------------
+        low = csymx.Lower(fn)
+        cloops = _counted_loops(fn, low)
+        childpre = ("index_->nodes_.vector_[%s].childID_[" % par).replace(" ", "")
+        calls = []          # (cfg node, call, child numbers or None)
+        for n in g.nodes:
+            if not isinstance(n.c, dict):
+                continue
+            for x in walk(n.c):
+                if x.get("kind") in ("CallExpr", "CXXMemberCallExpr") and callee_name(x) == short and cfront.call_args(x):
+                    e = _through_locals(cfront.call_args(x)[0], sdl)
+                    t = render(e).replace(" ", "")
+                    if not (e.get("kind") == "ArraySubscriptExpr" and t.startswith(childpre)):
+                        continue
+                    ix = strip(e["inner"][1])
+                    ks = None
+                    encl = [lv for lv in cloops if any(y is x for y in walk(lv[2]))]
+                    if ix.get("kind") == "IntegerLiteral":
+                        ks = [int(ix.get("value"))]
+                    elif ix.get("kind") == "DeclRefExpr":
+                        lv = [l_ for l_ in encl if l_[0] == ix["referencedDecl"]["name"]]
+                        if lv:
+                            ks = list(lv[0][1])
+                    calls.append((n, x, ks, encl))
+        if not calls:
+            if childpre in render(cfront.body_of(fn)).replace(" ", ""):
+                chk.ob(rule, "%s::every-stored-child-is-searched" % short, None, fw, "the method looks at the stored children of node `%s` but no call of itself on "
+                       "`N(%s).childID_[k]` was recognised" % (par, par))
+            continue
+        if any(ks is None for _, _, ks, _ in calls):
+            chk.ob(rule, "%s::every-stored-child-is-searched" % short, None, fw, "the child number of a recursive call was not resolved: %s"
+                   % [render(cfront.call_args(x)[0]) for _, x, ks, _ in calls if ks is None][:2])
+            continue
+        visited = sorted({k for _, _, ks, _ in calls for k in ks})
+        missing = [k for k in range(4) if k not in visited]
+        # conditions under which a child is NOT searched although an earlier / other one is
+        ctl = {n.id: {(b.id, lab) for b, lab in v.controlling_branches(n)} for n, _, _, _ in calls}
+        common = set.intersection(*ctl.values())
+        culprits = []       # (cfg branch node, how)
+        for n, x, ks, encl in calls:
+            loop_ids = {m.id for m in g.nodes if m.kind == "loop" and any(m.c is lv[2]["inner"][2] for lv in encl)}
+            for bid, lab in sorted(ctl[n.id] - common):
+                if bid in loop_ids:
+                    continue
+                culprits.append((g.node(bid), "the call `%s` runs only on the %s side of" % (render(x)[:60], lab)))
+            for lid in loop_ids:
+                body = [m for m in g.nodes if any(b.id == lid and lab == "T" for b, lab in v.controlling_branches(m))]
+                bids = {m.id for m in body} | {lid}
+                for m in body:
+                    for j in g.g.successors(m.id):
+                        if j not in bids:
+                            inner = [b for b, lab in v.controlling_branches(m) if b.id in bids and b.id != lid]
+                            for b in inner or [m]:
+                                culprits.append((b, "the loop over the children is left (`%s`) under" % (render(m.c)[:40] if isinstance(m.c, dict) else m.kind)))
+        # a test of the child slot itself (`if (NC(p,k) != 0)`) skips nothing that exists
+        real = []
+        for b, how in culprits:
+            t = render(b.c).replace(" ", "") if isinstance(b.c, dict) else ""
+            names = {y.get("referencedDecl", {}).get("name") for y in walk(b.c)} if isinstance(b.c, dict) else set()
+            if childpre in t and not any(callee_name(y) == short for y in walk(b.c) if y.get("kind") in ("CallExpr", "CXXMemberCallExpr")) \
+                    and not any(nm in sdl and any(callee_name(y) == short for y in walk(sdl[nm]) if y.get("kind") in ("CallExpr", "CXXMemberCallExpr")) for nm in names if nm):
+                continue
+            if not any(b is r_[0] for r_ in real):
+                real.append((b, how))
+        key = "%s::every-stored-child-is-searched" % short
+        base = ("a node with stored children is searched through all four of them, whatever the result for a sibling (children searched: %s, under %s)"
+                % (visited, sorted(render(g.node(bid).c)[:60] + ":" + lab for bid, lab in common if isinstance(g.node(bid).c, dict) and g.node(bid).kind == "branch")))
+        if missing:
+            chk.ob(rule, key, False, fw, base + " -- child %s is never searched" % missing)
+            continue
+        if not real:
+            chk.ob(rule, key, True, fw, base)
+            continue
+        # which results make it skip siblings, and where do they come from?
+        enums = set()
+        uses_result = False
+        for b, how in real:
+            exprs = [b.c] + [sdl[y["referencedDecl"]["name"]] for y in walk(b.c) if y.get("kind") == "DeclRefExpr" and y.get("referencedDecl", {}).get("name") in sdl]
+            for ex in exprs:
+                for y in walk(ex):
+                    if y.get("kind") == "DeclRefExpr" and y.get("referencedDecl", {}).get("kind") == "EnumConstantDecl":
+                        enums.add(y["referencedDecl"]["name"])
+                    if y.get("kind") in ("CallExpr", "CXXMemberCallExpr") and callee_name(y) == short:
+                        uses_result = True
+        desc = "; ".join("%s `%s` (line %s)" % (how, render(b.c)[:90], b.c.get("line") or next((y["line"] for y in walk(b.c) if y.get("line")), "?")) for b, how in real[:2])
+        if not enums or not uses_result:
+            chk.ob(rule, key, None, fw, base + " -- %s: a condition that is not a test on the result of a sibling; not judged" % desc)
+            continue
+        if testers is None:
+            testers = edge_testers(fs)
+        sites, unjust = [], []
+        seenf = set()
+        for nm2, fn2 in sorted(fs.items()):
+            if "::" not in nm2 or id(fn2) in seenf or not cfront.has_body(fn2):
+                continue
+            seenf.add(id(fn2))
+            g2 = v2 = None
+            for y in walk(cfront.body_of(fn2)):
+                val = None
+                if y.get("kind") == "ReturnStmt" and y.get("inner"):
+                    val = strip(y["inner"][0])
+                elif y.get("kind") == "BinaryOperator" and y.get("opcode") == "=":
+                    val = strip(y["inner"][1])
+                elif y.get("kind") == "VarDecl" and init_of(y) is not None:
+                    val = strip(init_of(y))
+                if val is None or not any(z.get("kind") == "DeclRefExpr" and z.get("referencedDecl", {}).get("kind") == "EnumConstantDecl"
+                                          and z["referencedDecl"].get("name") in enums for z in walk(val)):
+                    continue
+                if g2 is None:
+                    g2 = cfront.CCFG(fn2)
+                    v2 = g2.view()
+                host = [m for m in g2.nodes if isinstance(m.c, dict) and any(z is y for z in walk(m.c))]
+                if not host and y.get("kind") == "ReturnStmt":
+                    host = [m for m in g2.nodes if m.kind == "return" and isinstance(m.c, dict) and (m.c is y or any(z is val for z in walk(m.c)))]
+                facts = guard_facts(v2, host[0]) if host else set()
+                just = any(ft.startswith("!%s(" % t_) for ft in facts for t_ in testers)
+                site = "%s line %s" % (nm2.split("::")[-1], y.get("line") or next((z["line"] for z in walk(y) if z.get("line")), "?"))
+                sites.append(site)
+                if not just:
+                    unjust.append("%s (holds there: %s)" % (site, sorted(facts)[:4]))
+        if not sites:
+            chk.ob(rule, key, None, fw, base + " -- %s; no place that produces %s was found" % (desc, sorted(enums)))
+        elif unjust:
+            where_b = real[0][0].c.get("line") or next((y["line"] for y in walk(real[0][0].c) if y.get("line")), fn.get("line", "?"))
+            chk.ob(rule, key, False, "%s:%s" % (where, where_b),
+                   base + " -- %s: the remaining siblings are skipped when a child answers %s, and that answer is produced at %s without the query region having been "
+                   "shown not to cross an edge of the triangle (no failed %s controls it): a circle that reaches across the border into a later sibling loses every "
+                   "triangle - and every match - there" % (desc, sorted(enums), "; ".join(unjust[:2]), " / ".join(sorted(testers)) or "edge test"))
+        else:
+            chk.ob(rule, key, None, fw, base + " -- %s: siblings are skipped when a child answers %s, which is produced only where the region crosses no edge of the "
+                   "triangle (%s); whether the region then lies wholly inside is a geometric claim that is not decided here" % (desc, sorted(enums), "; ".join(sites[:3])))
+
+
+# ---------------------------------------------------------------------------
 def _counted_loops(fn, low):
     """[(variable, [values it takes], ForStmt)] for the counted loops `for (T k = a; k < b; k++)` with literal bounds whose variable
     is not written in the body: such a loop stands for its iterations (constant evaluation, no input involved)"""
@@ -2384,18 +2738,13 @@ def _is_vec(n):
     return "SpatialVector" in ((n.get("type") or {}).get("qualType", "")) if isinstance(n, dict) else False
 
 
-def triangle_edge_rule(chk, rule="R12.9"):
-    """R12.9 (continued): a triangle is given to the cover code as three vertex parameters; whether a circle crosses its boundary is
-    decided edge by edge through a two-vertex helper (eSolve).  Necessary for 'none missing': wherever a function that receives the
-    three vertices of a triangle applies such a helper to two of them, it applies it to all three edges {a,b}, {b,c}, {c,a} - an edge
-    left out makes a circle that clips the triangle only across that edge invisible, and the triangle is rejected with every point
-    in it.  Decided on resolved arguments: vertex parameters directly, through single-definition aliases, or through a local table
-    initialised from the vertices and indexed by an expression that is evaluated for every iteration of a counted loop."""
+def _edge_applications(fs):
+    """[(function name, decl, its three vertex parameters, helper name, [(vertex, vertex) per call made, None where not resolved])] for every
+    method that receives the three vertices of a triangle and applies a two-vertex helper to them.  Decided on resolved arguments: vertex
+    parameters directly, through single-definition aliases, or through a local table initialised from the vertices and indexed by an
+    expression that is evaluated for every iteration of a counted loop."""
     import sympy as sp
-    decls = cfront.load_tu("spatialconvex")
-    fs = cfront.functions(decls)
-    src = "esutil/htm/htm_src/SpatialConvex.cpp"
-    seen = 0
+    out = []
     done = set()
     for name, fn in sorted(fs.items()):
         if "::" not in name or id(fn) in done or not cfront.has_body(fn):
@@ -2470,18 +2819,45 @@ def triangle_edge_rule(chk, rule="R12.9"):
             for sub in subs:
                 percallee.setdefault(cn, []).append(tuple(vertex(a, sub) for a in vargs))
         for cn, pairs in sorted(percallee.items()):
-            edges = {frozenset(p) for p in pairs if None not in p and p[0] != p[1]}
-            if not edges:
-                continue            # the helper is not applied to edges of this triangle
-            seen += 1
-            chk.analysed_unit("SpatialConvex.cpp:" + name)
-            want = {frozenset(e) for e in ((verts[0], verts[1]), (verts[1], verts[2]), (verts[2], verts[0]))}
-            missing = sorted("-".join(sorted(e)) for e in want - edges)
-            unresolved = [p for p in pairs if None in p]
-            degenerate = [p for p in pairs if None not in p and p[0] == p[1]]
-            ok = True if not missing else (None if unresolved else False)
-            chk.ob(rule, "%s::%s-on-all-three-edges" % (name.split("::")[-1], cn), ok, "%s:%s" % (src, fn.get("line", "?")),
-                   "`%s` is applied to two vertices of the triangle (%s): it must be applied to all three edges%s%s"
-                   % (cn, ", ".join(verts), "" if not missing else " -- never applied to edge %s; the calls made are on %s" % (", ".join(missing), sorted("-".join(p) for p in pairs if None not in p)),
-                      "" if not degenerate else " (degenerate call on %s)" % degenerate[:2]))
+            out.append((name, fn, verts, cn, pairs))
+    return out
+
+
+def edge_testers(fs):
+    """short names of the methods that decide whether the query region crosses the boundary of a triangle: they apply a two-vertex
+    helper to all three edges of the triangle they are given"""
+    out = set()
+    for name, fn, verts, cn, pairs in _edge_applications(fs):
+        edges = {frozenset(p) for p in pairs if None not in p and p[0] != p[1]}
+        want = {frozenset(e) for e in ((verts[0], verts[1]), (verts[1], verts[2]), (verts[2], verts[0]))}
+        if want <= edges:
+            out.add(name.split("::")[-1])
+    return out
+
+
+def triangle_edge_rule(chk, rule="R12.9"):
+    """R12.9 (continued): a triangle is given to the cover code as three vertex parameters; whether a circle crosses its boundary is
+    decided edge by edge through a two-vertex helper (eSolve).  Necessary for 'none missing': wherever a function that receives the
+    three vertices of a triangle applies such a helper to two of them, it applies it to all three edges {a,b}, {b,c}, {c,a} - an edge
+    left out makes a circle that clips the triangle only across that edge invisible, and the triangle is rejected with every point
+    in it.  Decided on resolved arguments (see _edge_applications)."""
+    decls = cfront.load_tu("spatialconvex")
+    fs = cfront.functions(decls)
+    src = "esutil/htm/htm_src/SpatialConvex.cpp"
+    seen = 0
+    for name, fn, verts, cn, pairs in _edge_applications(fs):
+        edges = {frozenset(p) for p in pairs if None not in p and p[0] != p[1]}
+        if not edges:
+            continue            # the helper is not applied to edges of this triangle
+        seen += 1
+        chk.analysed_unit("SpatialConvex.cpp:" + name)
+        want = {frozenset(e) for e in ((verts[0], verts[1]), (verts[1], verts[2]), (verts[2], verts[0]))}
+        missing = sorted("-".join(sorted(e)) for e in want - edges)
+        unresolved = [p for p in pairs if None in p]
+        degenerate = [p for p in pairs if None not in p and p[0] == p[1]]
+        ok = True if not missing else (None if unresolved else False)
+        chk.ob(rule, "%s::%s-on-all-three-edges" % (name.split("::")[-1], cn), ok, "%s:%s" % (src, fn.get("line", "?")),
+               "`%s` is applied to two vertices of the triangle (%s): it must be applied to all three edges%s%s"
+               % (cn, ", ".join(verts), "" if not missing else " -- never applied to edge %s; the calls made are on %s" % (", ".join(missing), sorted("-".join(p) for p in pairs if None not in p)),
+                  "" if not degenerate else " (degenerate call on %s)" % degenerate[:2]))
     chk.ob(rule, "triangle-edge-helpers-found", True if seen >= 1 else None, src, "%d function(s) apply a two-vertex helper to the edges of a triangle" % seen)
